@@ -17,8 +17,42 @@ pub static TEXTS: [&str; 4] = ["Custom error A", "Device-specific fault", "Overr
 
 /// Error returned by FAIL handlers: `Custom(code, text)`, text chosen by code.
 pub fn custom_error(code: i16) -> Error {
-    Error::Custom(code, TEXTS[(code as u16 % 4) as usize])
+    // a few codes make the handler return one of the library's own (standard) errors
+    match code {
+        -200 => Error::ExecutionError,
+        -220 => Error::ParameterError,
+        -221 => Error::SettingsConflict,
+        -222 => Error::DataOutOfRange,
+        -224 => Error::IllegalParameterValue,
+        -240 => Error::HardwareError,
+        -400 => Error::QueryError,
+        _ => Error::Custom(code, TEXTS[(code as u16 % 4) as usize]),
+    }
 }
+
+/// SCPI-1999 / IEEE 488.2 text of the standard errors that the workloads can put into
+/// the queue (number, description); used by the C09 oracle as an independent table.
+pub const STANDARD_TEXT: [(i16, &str); 19] = [
+    (-100, "Command error"),
+    (-101, "Invalid character"),
+    (-103, "Invalid separator"),
+    (-104, "Data type error"),
+    (-111, "Header separator error"),
+    (-113, "Undefined header"),
+    (-115, "Unexpected number of parameters"),
+    (-120, "Numeric data error"),
+    (-121, "Invalid character in number"),
+    (-200, "Execution error"),
+    (-220, "Parameter error"),
+    (-221, "Settings conflict"),
+    (-222, "Data out of range"),
+    (-223, "Too much data"),
+    (-224, "Illegal parameter value"),
+    (-240, "Hardware error"),
+    (-310, "System error"),
+    (-350, "Queue overflow"),
+    (-400, "Query error"),
+];
 
 /// Error *value* returned (as a response) by ZOO:ERR?
 pub fn error_value(code: i16) -> Error {
